@@ -514,6 +514,6 @@ func Main() {
 	run.Assume("script validity of generated inputs is ground truth by construction; every other rule and the fork choice come from /verif/ref/refchain")
 	run.Assume("per-block work differs only in the testnet-work histories (minimum-difficulty blocks = 1/4 of a real block after one retarget); elsewhere all blocks carry the same difficulty")
 	os.RemoveAll(tmp) // Finish exits the process: deferred clean-up would not run
-	run.Finish("each delivery = one block of a random block tree (valid / invalid at connect time / invalid at check time; forks from the tip and from below it; children withheld until parents are delivered, sometimes offered early; redeliveries; Idle/HurryUp in between); after each: tip + full UTXO dump vs reference; distinct_nontrivial = distinct tree shapes",
-		"deliveries", "tree_shapes", 10)
+	run.Finish("each delivery = one block of a random block tree (valid / invalid at connect time / invalid at check time; forks from the tip and from below it; children withheld until parents are delivered, sometimes offered early; redeliveries; Idle/HurryUp in between); after each: tip + full UTXO dump vs reference; distinct_nontrivial = distinct (tip, UTXO size) states that were compared (distinct tree shapes are listed under distinct_sets)",
+		"deliveries", "chain_states_compared", 10)
 }
